@@ -162,10 +162,13 @@ impl Check for C09 {
             // the prototype (the time of one next() call quadratic in the file size; decided by the watchdog, with a margin
             // of two orders of magnitude between a linear and a quadratic reader)
             .chain([(2_000u32, 100_000u32), (20_000, 5_000_000)].iter().map(|(records, packets)| Case { script: Script { seed: crate::untrusted::Seed::TinyPackets { records: *records, packets: *packets }, muts: vec![], reseal: true } }))
+            // thousands of namespace declarations in scope of thousands of elements that declare one more (the XML parser
+            // copies and compares all of them for each): white space of every kind between the attributes
+            .chain((0..4u8).flat_map(|sep| [(2000u16, 20_000u32), (300, 100)].into_iter().map(move |(on_root, leaves)| Case { script: Script { seed: crate::untrusted::Seed::ManyNamespaces { on_root, leaves, sep }, muts: vec![], reseal: true } })))
             .collect()
     }
     fn describe_fixed(_t: Tier) -> Option<String> {
-        Some("4 hand-built conforming files: a 1-bit record followed by 40 .. 3000 constant records, one data packet with 20 000 .. 440 000 points; 2 hand-built files with 2 000 / 20 000 records and 100 000 / 5 000 000 minimum-size ignored packets".into())
+        Some("4 hand-built conforming files: a 1-bit record followed by 40 .. 3000 constant records, one data packet with 20 000 .. 440 000 points; 2 hand-built files with 2 000 / 20 000 records and 100 000 / 5 000 000 minimum-size ignored packets; 8 hand-built files whose root declares 300 / 2 000 namespaces above 100 / 20 000 elements declaring one more, with space, line feed, tab or carriage return between the attributes".into())
     }
     fn gen(s: &mut Src, _t: Tier) -> Case {
         let mut script = gen_script(s);
